@@ -342,7 +342,7 @@ def run(tier, only=None):
         res = tlc.run_wrapped("OASCoupled", "OASCoupled.cfg", {"SurfSeq": seq, "Relief": rel}, workers=4, constants={"MaxSweep": 3 if tier == "quick" else 5})
         tlc.require_ok(res)
         R.add_tlc(res)
-    ntr = 4 if tier == "quick" else 16
+    ntr = 4 if tier == "quick" else 48
     jobs = [(k, nl) for k in range(ntr) for nl in (("NLBGS_aitken", "NLBGS", "Newton")[k % 3],)]
     for r in check_exc(pmap(_trace_job, jobs)):
         R.replayed += 1
@@ -354,23 +354,23 @@ def run(tier, only=None):
             R.case(["control", name], True, section="negative_controls")
             if not ok:
                 raise MachineryError("binding demonstration failed: a %s trace was ACCEPTED" % name)
-    n = 6 if tier == "quick" else 36
+    n = 6 if tier == "quick" else 180
     for r in check_exc(pmap(_open_loop_job, range(n))):
         R.replayed += 1
         R.case(["openloop", r["k"]], True, sample=r["case"] if r["k"] == 0 else None, section="open_loop")
         for sig, p in r["bad"]:
             R.violation(sig, {"k": r["k"], "case": r["case"], "detail": p})
     inconcl = []
-    for r in check_exc(pmap(_solver_job, range(4 if tier == "quick" else 16))):
+    for r in check_exc(pmap(_solver_job, range(4 if tier == "quick" else 64))):
         R.case(["solvers", r["k"]], True, sample=r["case"] if r["k"] == 0 else None, section="solvers")
         inconcl += r["inconclusive"]
         for sig, p in r["bad"]:
             R.violation(sig, {"k": r["k"], "case": r["case"], "detail": p})
-    for r in check_exc(pmap(_multipoint_job, range(2 if tier == "quick" else 8))):
+    for r in check_exc(pmap(_multipoint_job, range(2 if tier == "quick" else 32))):
         R.case(["multipoint", r["k"]], True, section="multipoint")
         for sig, p in r["bad"]:
             R.violation(sig, {"k": r["k"], "case": r["case"], "detail": p})
-    for r in check_exc(pmap(_rigid_job, range(2 if tier == "quick" else 6))):
+    for r in check_exc(pmap(_rigid_job, range(2 if tier == "quick" else 12))):
         R.case(["rigid", r["k"]], True, sample={"rigid_limit_errors_per_decade_of_E": r["errs"]} if r["k"] == 0 else None, section="rigid")
         for sig, p in r["bad"]:
             R.violation(sig, {"k": r["k"], "detail": p})
